@@ -266,7 +266,11 @@ def universe_unit(rep):
         if key not in shared:
             # (entry dates and query instants are also expressed in other time zones: the comparison is between instants)
             zone = lambda k: ["UTC", "Asia/Tokyo", "America/New_York", "Europe/Berlin"][(k + len(shared)) % 4]
-            shared[key] = (DynamicUniverse(dict((names[i], (None if e == -1 else ts(base + e).tz_convert(zone(i)))) for i, e in enumerate(ent))), [])
+            # "no entry date" is None for every other map and pandas' own missing date, NaT, for the rest (what a date column read
+            # with pandas holds in an empty cell)
+            import pandas as pd
+            nodate = None if len(shared) % 2 == 0 else pd.NaT
+            shared[key] = (DynamicUniverse(dict((names[i], (nodate if e == -1 else ts(base + e).tz_convert(zone(i)))) for i, e in enumerate(ent))), [])
         uni, asked = shared[key]
         got = uni.get_assets(ts(base + t).tz_convert(["UTC", "Europe/Berlin", "Asia/Tokyo"][t % 3]))
         asked.append((t, exp))
@@ -329,6 +333,14 @@ def run(prop, replay_file=None):
         # property is about WHEN a session trades (C14) and by C16's in-backtest part
         kinds = ("single",) if prop == "C19" else (("fixed", "fixed", "single") if prop == "C08" else ("fixed", "fixed", "single", "topn"))
         cfgs = [sr.gen_config(rng, alpha_kinds=kinds) for _ in range(n)]
+        if prop in ("C14", "C19"):
+            # a member LEAVES the universe in about a fifth of the universe-driven configurations (second stream of draws)
+            rng1 = random.Random(sd * 9973 + 99)
+            nexit = 0
+            for c_ in cfgs:
+                if c_["alpha"] == "single" and rng1.random() < 0.4:
+                    nexit += sr.add_exit(c_, rng1)
+            rep.cov["configurations_with_an_asset_leaving_the_universe"] = nexit
         if prop == "C08":
             rng0 = random.Random(sd * 9973 + 77)
             cfgs += [sr.gen_zero_units_config(rng0) for _ in range(n // 12)]
